@@ -229,6 +229,7 @@ func checkC10(ctx *Ctx) {
 		}
 	})
 	streamLineage(ctx)
+	auditBeforeOutput(ctx)
 	// tasks with two outputs: the audit file of *each* output lists all outputs of the task
 	// ... and outputs outside the working directory (paths with ../): the record names the declared paths
 	up := fmt.Sprintf("../c10up_%d/a.txt", os.Getpid())
@@ -302,6 +303,32 @@ func streamLineage(ctx *Ctx) {
 			return
 		}
 		cur = cur.Upstream[keys[k]]
+	}
+}
+
+// at no instant does a finalized output exist without its audit record: kill the run at the points around the
+// renames and look
+func auditBeforeOutput(ctx *Ctx) {
+	ch := Chain{Inputs: []string{"a.txt", "b.txt"}, Levels: []Level{{}, {}}, Max: 2}
+	for _, pt := range []string{"fin.renamed#1", "fin.renamed#2", "fin.renamed#3", "fin.rmtmp.before#1", "fin.rmtmp.after#1", "fin.rmtmp.after#2", "exec.finalized#1"} {
+		dir := newDir()
+		for p, content := range ch.sources() {
+			ioutil.WriteFile(filepath.Join(dir, p), []byte(content), 0644)
+		}
+		rr := RunWorkflow(ch.desc(), RunOpts{Dir: dir, Env: []string{"VERIF_CRASH_AT=" + pt}})
+		ctx.Res.Eval("outputs and their audit files at a kill at "+pt, rr.Exit == -1, pt)
+		ctx.Res.Count("kill-around-rename")
+		for _, t := range ch.tasks() {
+			for _, o := range t.Outs {
+				if _, ok := readFile(dir, o); !ok {
+					continue
+				}
+				if a, err := readAudit(dir, o); err != nil || a.ProcessName == "" {
+					ctx.Res.Violate(Violation{What: fmt.Sprintf("killed at %s: %s exists at its final path without a valid audit record next to it (%v)", pt, o, err), Class: "c10.output-without-record", Witness: pt})
+				}
+			}
+		}
+		os.RemoveAll(dir)
 	}
 }
 
